@@ -13,5 +13,6 @@ Extraction "../ocaml/c02/model.ml"
   spec_hdr_layout spec_enc_header spec_dec_header
   spec_vlr_hdr_layout spec_enc_vlr_header spec_dec_vlr_header
   spec_eb_descriptor spec_enc_eb_descriptor spec_dec_eb_descriptor layout_names
+  spec_dec_known spec_enc_known spec_known_names lookup_parse lookup_bytes
   record_at spec_dec_records append_session edit_record
   handover_accepts ebs_of_dims assign_elems.
